@@ -116,6 +116,13 @@ def cases():
                 yield dict(name="def-use-same", d=d, u=u, expect=True, src=render({d: ["x := 5", "print(x)"]}))
                 yield dict(name="use-before-def-same", d=d, u=u, expect=False, src=render({d: ["print(x)", "x := 5"]}))
                 yield dict(name="redef-same", d=d, u=u, expect=False, src=render({d: ["x := 5", "x := 6"]}))
+                # several names: `var` never re-uses a visible name; `:=` may, as long as one name is new (round 8: C07-A)
+                yield dict(name="redef-same-var-multi", d=d, u=u, expect=False, src=render({d: ["x := 5", "var x, zz9 int = 6, 7"]}))
+                yield dict(name="redef-same-var-multi-last", d=d, u=u, expect=False, src=render({d: ["x := 5", "var zz9, x = 6, 7"]}))
+                yield dict(name="redef-same-var-multi-untyped", d=d, u=u, expect=False, src=render({d: ["x := 5", "var x, zz9 = 6, 7"]}))
+                yield dict(name="redef-same-short-multi", d=d, u=u, expect=True, src=render({d: ["x := 5", "x, zz9 := 6, 7", "print(x, zz9)"]}))
+                yield dict(name="redef-same-short-multi-none-new", d=d, u=u, expect=False, src=render({d: ["x, zz9 := 6, 7", "x, zz9 := 1, 2"]}))
+                yield dict(name="redef-same-var-multi-all-new", d=d, u=u, expect=True, src=render({d: ["var x, zz9 int = 6, 7", "print(x, zz9)"]}))
                 continue
             ok = visible(d, u)
             yield dict(name="def-use", d=d, u=u, expect=ok, src=render({d: ["x := 5"], u: ["print(x)"]}))
@@ -123,6 +130,11 @@ def cases():
             # a second definition of the same name is rejected exactly when the (textually) first is visible there
             first, second = (d, u) if INFO.order[d] < INFO.order[u] else (u, d)
             yield dict(name="redef", d=d, u=u, expect=not visible(first, second), src=render({d: ["x := 5"], u: ["var x int = 6"]}))
+            yield dict(name="redef-var-multi", d=d, u=u, expect=not visible(first, second), src=render({d: ["x := 5"], u: ["var x, zz9 int = 6, 7"]}))
+            yield dict(name="redef-var-multi-last", d=d, u=u, expect=not visible(first, second), src=render({d: ["x := 5"], u: ["var zz9, x = 6, 7"]}))
+            # `x, zz9 := 6, 7` after a visible x assigns to it; before it, the later single definition is the redefinition
+            yield dict(name="redef-short-multi", d=d, u=u, expect=True if INFO.order[d] < INFO.order[u] else not visible(u, d),
+                       src=render({d: ["x := 5"], u: ["x, zz9 := 6, 7"]}))
     # 2. parameters, loop-header and range variables
     for u in SLOTS:
         in_f = u in (1, 2, 3, 4, 5, 6, 7, 8)
